@@ -552,3 +552,97 @@ def random_update_scenario(rng):
         pool = [g['name'] for g in groups] + added + ['zzz']
         args = [rng.choice(pool) for _ in range(rng.choice([1, 1, 2, 3]))]
     return {'groups': groups, 'added': added, 'args': args, 'corrupt': rng.random() < 0.05, 'label': 'random'}
+
+
+# ------------------------------------------------ %-format corruptions of expanded options
+
+# conversions of the wrong type for a string-valued name, too few arguments, unknown names,
+# truncated / unknown conversion characters; '%%' and the process_num conversions are valid
+FORMAT_BAD = ['%(program_name)d', '%(program_name)f', '%(here)c', '%(here)d', '%(host_node_name)f',
+              '%(group_name)x', '%d', '%(missing)s', '%(missing)d', '%(', '%(program_name', '%z', '%(program_name)z',
+              '%', '%(program_name)', '%(here)*d', '%(ENV_C15_NOSUCH)s']
+# ('%s' % mapping formats the mapping itself; %c accepts a one-character string)
+FORMAT_MAYBE = ['%s', '%(program_name)c', '%(process_num)s', '%(process_num)c', '%(process_num)02d', '%(numprocs)f', '%(process_num)*d']
+FORMAT_OK = ['%%', '%(program_name)s', '%(here)s', '%(host_node_name)s', '100%%']
+
+# option -> how the payload is embedded in a plausible value
+FORMAT_STRING_OPTIONS = {
+    'command': '/bin/cat %s', 'process_name': 'p%s', 'directory': '/tmp/%s', 'environment': 'A="%s"',
+    'stdout_logfile': '/tmp/c15_%s.log', 'stderr_logfile': '/tmp/c15_%s.log', 'serverurl': 'http://localhost/%s',
+    'user': '%s',
+}
+FORMAT_OTHER_OPTIONS = ['priority', 'autostart', 'autorestart', 'startsecs', 'startretries', 'stopsignal', 'stopwaitsecs',
+                        'exitcodes', 'umask', 'numprocs', 'numprocs_start', 'stdout_logfile_maxbytes',
+                        'stdout_logfile_backups', 'stdout_capture_maxbytes', 'stdout_events_enabled', 'stdout_syslog',
+                        'redirect_stderr', 'stopasgroup', 'killasgroup']
+FORMAT_MUST_FAIL_OPTIONS = ('command', 'process_name', 'directory', 'environment', 'stdout_logfile', 'stderr_logfile',
+                            'serverurl', 'socket')
+
+
+def format_corruption_cases(base, tier):
+    """(label, old text, new text, must_fail) : one option of one section carries a %-format
+    payload.  `base` is the [supervisord] section text of the harness."""
+    quick = tier == 'quick'
+    out = []
+    payloads = [(p, True) for p in FORMAT_BAD] + [(p, False) for p in FORMAT_MAYBE + FORMAT_OK]
+
+    def add(label, old_secs, bad_secs, must, base_old=base, base_bad=None, tail=''):
+        out.append((label, base_old + render(old_secs), (base_bad or base_old) + render(bad_secs) + tail, must))
+
+    hosts = ['program', 'listener', 'fcgi', 'member'] + ([] if quick else ['program_n', 'fcgi_member'])
+    for h in hosts:
+        good, _ = host(h, None, None)
+        for opt, tmpl in sorted(FORMAT_STRING_OPTIONS.items()):
+            for p, bad in payloads:
+                if quick and h != 'program' and not bad:
+                    continue
+                secs, _ = host(h, opt, tmpl % p)
+                add('format:%s:%s=%s' % (h, opt, tmpl % p), good, secs, bad and opt in FORMAT_MUST_FAIL_OPTIONS)
+    good, _ = host('program', None, None)
+    for opt in FORMAT_OTHER_OPTIONS:
+        for p, bad in payloads:
+            if quick and not bad:
+                continue
+            secs, _ = host('program', opt, p)
+            add('format:program:%s=%s' % (opt, p), good, secs, False)
+    # section-kind specific options
+    for h, opts in (('listener', {'events': 'TICK_5,%s', 'buffer_size': '%s', 'result_handler': 'supervisor.dispatchers:%s',
+                                  'priority': '%s'}),
+                    ('fcgi', {'socket': 'unix:///tmp/c15_%s_x', 'socket_owner': '%s', 'socket_mode': '%s',
+                              'socket_backlog': '%s'}),
+                    ('fcgi_tcp', {'socket': 'tcp://localhost:%s'}),
+                    ('group', {'programs': 'a,b%s', 'priority': '%s'})):
+        good, _ = host(h, None, None)
+        for opt, tmpl in sorted(opts.items()):
+            for p, bad in payloads:
+                secs, _ = host(h, opt, tmpl % p)
+                add('format:%s:%s=%s' % (h, opt, tmpl % p), good, secs, bad and opt in FORMAT_MUST_FAIL_OPTIONS)
+    # [supervisord] options, [include], server sections, rpcinterface sections
+    good = [P('a')]
+    sup_opts = {'logfile': '%s', 'pidfile': '%s', 'childlogdir': '%s', 'directory': '/tmp/%s', 'identifier': 'sup%s',
+                'environment': 'S="%s"', 'user': '%s', 'umask': '%s', 'minfds': '%s', 'loglevel': '%s',
+                'logfile_maxbytes': '%s', 'nocleanup': '%s'}
+    for opt, tmpl in sorted(sup_opts.items()):
+        for p, bad in payloads:
+            if quick and not bad:
+                continue
+            lines = [l for l in base.split('\n') if l and not l.startswith(opt + '=')]
+            bad_base = '\n'.join(lines + ['%s=%s' % (opt, tmpl % p)]) + '\n'
+            add('format:supervisord:%s=%s' % (opt, tmpl % p), good, good, False, base_bad=bad_base)
+    for sec, opts in (('include', {'files': '/nonexistent-c15/%s.conf'}),
+                      ('unix_http_server', {'file': '/tmp/c15_%s.sock', 'chmod': '%s', 'chown': '%s', 'username': '%s'}),
+                      ('inet_http_server', {'port': '127.0.0.1:%s', 'username': '%s', 'password': '%s'}),
+                      ('rpcinterface:x', {'supervisor.rpcinterface_factory': 'supervisor.rpcinterface:%s', 'extra': '%s'})):
+        for opt, tmpl in sorted(opts.items()):
+            for p, bad in payloads:
+                if quick and not bad:
+                    continue
+                body = [(opt, tmpl % p)]
+                if sec == 'unix_http_server' and opt != 'file':
+                    body.append(('file', '/tmp/c15_u.sock'))
+                if sec == 'inet_http_server' and opt != 'port':
+                    body.append(('port', '127.0.0.1:9099'))
+                if sec == 'rpcinterface:x' and opt == 'extra':
+                    body.append(('supervisor.rpcinterface_factory', 'supervisor.rpcinterface:make_main_rpcinterface'))
+                add('format:%s:%s=%s' % (sec, opt, tmpl % p), good, good, False, tail=render([(sec, body)]))
+    return out
